@@ -287,7 +287,7 @@ func sortStringsStub(m *Machine, c *frame, fn *ssa.Function, a []Value) Value {
 	for i, e := range s {
 		t, ok := e.(*sym.Term)
 		if !ok || !t.Const {
-			if fn.Blocks == nil && fn.Pkg != nil {
+			if fn.Pkg != nil { // Build is once-guarded and waits for a build in progress on another worker
 				fn.Pkg.Build()
 			}
 			return m.callSSA(c, fn, a, nil)
